@@ -221,15 +221,16 @@ Definition yield_pc (p : pc) : bool :=
   | _ => false
   end.
 
-Fixpoint run_thread (fuel : nat) (s : state) (i : nat) : state :=
+Fixpoint run_thread (strict : bool) (fuel : nat) (s : state) (i : nat) : state :=
   match fuel with
   | O => s
   | S f =>
-      match step s i with
+      match step_gen strict s i with
       | None => s
       | Some s' =>
           match nth_error (thr s') i with
-          | Some t => if park_pc (tpc t) || is_done (tpc t) || yield_pc (tpc t) then s' else run_thread f s' i
+          | Some t => if park_pc (tpc t) || is_done (tpc t) || yield_pc (tpc t) then s'
+                      else run_thread strict f s' i
           | None => s'
           end
       end
@@ -250,16 +251,33 @@ Definition free_threads (strict : bool) (s : state) (st : list bool) : list nat 
 
 Definition run_fuel : nat := 4000.
 
+(** a reader that waits only because a writer has announced itself is
+    admitted (the real RWMutex does this for readers that were already waiting
+    when the previous writer unlocked), then runs on *)
+Definition barge (s : state) (i : nat) : state :=
+  match step s i with
+  | Some s' =>
+      match nth_error (thr s') i with
+      | Some t => if park_pc (tpc t) || is_done (tpc t) || yield_pc (tpc t) then s'
+                  else run_thread true run_fuel s' i
+      | None => s'
+      end
+  | None => s
+  end.
+
 (** all stable states reachable by letting runnable threads run, one at a
     time, in any order.  A state is stable when no thread is runnable under
-    the strict reading of writer preference; a thread may be picked whenever
-    it is runnable under the permissive reading (see [can_rlock]). *)
+    the strict reading of writer preference (see [can_rlock]). *)
 Fixpoint settle (fuel : nat) (s : state) (st : list bool) : list state :=
   match fuel with
   | O => [s]
   | S f =>
-      (if is_nil (free_threads true s st) then [s] else [])
-      ++ flat_map (fun i => settle f (run_thread run_fuel s i) st) (free_threads false s st)
+      let sf := free_threads true s st in
+      (if is_nil sf then [s] else [])
+      ++ flat_map (fun i => settle f (run_thread true run_fuel s i) st) sf
+      ++ flat_map (fun i => if existsb (Nat.eqb i) sf then []
+                            else settle f (barge s i) st)
+                  (free_threads false s st)
   end.
 
 (** the controller starts thread [i] or releases it from its hook *)
@@ -441,6 +459,31 @@ Definition get_coupling_ok (prog : list sop) (obs : list sobs) (k : nat) : bool 
         end) (seq 0 (List.length prog))
   end.
 
+(** writer exclusion judged on the implementation's observations: an Add to
+    path p that started and returned success while one and the same Query for
+    exactly p stayed parked inside its visitor on that leaf (so it held the
+    leaf's read lock all the time) cannot have held the leaf's write lock. *)
+Definition write_excl_ok (prog : list sop) (obs : list sobs) (results : list ares) (w : nat) : bool :=
+  match nth_error prog w, nth_error results w with
+  | Some (SAdd p _), Some (RsAdd true) =>
+      match first_idx (fun x => Nat.eqb (so_tid x) w) obs 0,
+            first_idx (fun x => Nat.eqb (nth w (so_status x) 0%nat) 3) obs 0 with
+      | Some (S a), Some b =>
+          negb (existsb (fun q =>
+                  match nth_error prog q, nth_error obs a, nth_error obs b with
+                  | Some (SQuery qp), Some oa, Some ob =>
+                      path_eqb p qp && negb (existsb is_glob qp)
+                      && Nat.eqb (nth q (so_status oa) 0%nat) 1
+                      && Nat.eqb (nth q (so_status ob) 0%nat) 1
+                      && negb (existsb (fun x => Nat.eqb (so_tid x) q)
+                                       (firstn (S b - S a) (skipn (S a) obs)))
+                  | _, _, _ => false
+                  end) (seq 0 (List.length prog)))
+      | _, _ => true
+      end
+  | _, _ => true
+  end.
+
 Definition sched_check (prog : list sop) (obs : list sobs) (results : list ares) (final : flat)
   : list (nat * N) :=
   (match accept prog [init_cfg prog] obs 0 with
@@ -451,6 +494,8 @@ Definition sched_check (prog : list sop) (obs : list sobs) (results : list ares)
   ++ map (fun i => (i, 6%N)) (find_idx (fun o => negb (coupling_ok prog o)) obs 0)
   ++ map (fun i => (i, 6%N))
          (filter (fun k => negb (get_coupling_ok prog obs k)) (seq 0 (List.length obs)))
+  ++ map (fun w => (w, 7%N))
+         (filter (fun w => negb (write_excl_ok prog obs results w)) (seq 0 (List.length prog)))
   ++ window_check [] (sched_history prog obs results) final.
 
 (** ** cases *)
